@@ -37,5 +37,5 @@ def one(data_spec):
                 U.plain_wire(spec, v, mat)
             except Exception as ex:
                 stats["WIRE-FAIL"] += 1; print("WIRE", repr(ex), mat.root_expr)
-core.drive(st.tuples(U.root_specs(max_depth=4, mods=2), st.data()), one, n=int(sys.argv[1]) if len(sys.argv) > 1 else 400, seed=5)
+core.drive(st.tuples(U.root_specs(max_depth=4, mods=3, adversarial=True), st.data()), one, n=int(sys.argv[1]) if len(sys.argv) > 1 else 400, seed=5)
 for k, v in sorted(stats.items()): print(k, v)
